@@ -518,6 +518,9 @@ func encodeTransactionResponseBasedOnWantedEncoding(
 							}
 							tables[tableKey] = make([]solana.PublicKey, maxIndex+1)
 						}
+						if numTakeWritable > len(writable) || numTakeReadonly > len(readonly) {
+							return nil, nil, fmt.Errorf("metadata lists fewer loaded addresses than the transaction's address table lookups use")
+						}
 						if numTakeWritable > 0 {
 							writableForTable := writable[:numTakeWritable]
 							for i, indexB := range addr.WritableIndexes {
